@@ -23,9 +23,14 @@
    splices them between sessions, and can sign with m's key whatever it knows (only the secret
    of its own session).  Cryptography is symbolic: a signature is the term [w, c] (signer,
    content); it verifies under public key k against content x iff w = owner(k) and c = x and
-   its encoding was not damaged.  Session secrets are the session numbers. *)
+   its encoding was not damaged.
+   The identity assigned to an accepted connection is FINAL: whatever happens afterwards -- in
+   particular any number of other peer ids being created in the process (NewPeerID /
+   NewPeerIDFromAddress, packets with foreign src ids passing through the packet reader; the
+   environment action OtherIds) -- the connection keeps exactly the identity that was proven. *)
 EXTENDS Integers, Sequences, FiniteSets, TLC
-CONSTANTS Sessions,     \* subset of {1, 2, 3} (real dialers) \cup {4, 5} (connections opened by transcript replay)
+CONSTANTS MaxChurn,     \* how often the environment action OtherIds may happen in a run
+          Sessions,     \* subset of {1, 2, 3} (real dialers) \cup {4, 5} (connections opened by transcript replay)
           PkForms,      \* encodings of a public key: "comp", "uncomp" parse; "bad" does not
           SigForms,     \* "full", "nov" (64 bytes), "vflip" verify;  "rflip" does not verify;
                         \* "empty", "short", "long" do not parse
@@ -46,8 +51,9 @@ VARIABLES dph, did,     \* dialer side of each session: "idle" | "wait" | "acc" 
           src,          \* for a replayed connection: the session whose transcript is replayed
           amsg, dmsg,   \* the message on which the identity was assigned
           seen,         \* signature terms that have travelled over the network
+          churn,        \* number of OtherIds events so far
           nops, hist
-vars == <<dph, did, aph, aid, deph, aeph, src, amsg, dmsg, seen, nops, hist>>
+vars == <<dph, did, aph, aid, deph, aeph, src, amsg, dmsg, seen, churn, nops, hist>>
 
 Msg(pkw, pkf, sw, sc, sf, err) == [pkw |-> pkw, pkf |-> pkf, sw |-> sw, sc |-> sc, sf |-> sf, err |-> err]
 \* what the attacker can put into a signature message
@@ -66,8 +72,11 @@ Verify(m, s) ==
   ELSE IF m.sf = "rflip" \/ m.sw # m.pkw \/ Secret(m.sc) # Secret(s) THEN "error:verify"
   ELSE "ok"
 
+\* identities currently assigned: what Peer.ID() of the acceptor's / dialer's peer object must return
+AccProj == {[s |-> s, side |-> "a", id |-> aid[s]] : s \in {x \in Sessions : aph[x] = "acc"}}
+           \cup {[s |-> s, side |-> "d", id |-> did[s]] : s \in {x \in Sessions : dph[x] = "acc"}}
 Log(e) == /\ nops' = nops + 1
-          /\ hist' = IF RecordHist THEN Append(hist, e) ELSE hist
+          /\ hist' = IF RecordHist THEN Append(hist, e @@ [acc |-> AccProj']) ELSE hist
 Rec(op, s, m, res, id) == [op |-> op, s |-> s, pkw |-> m.pkw, pkf |-> m.pkf, sw |-> m.sw, sc |-> m.sc, sf |-> m.sf,
                             err |-> m.err, res |-> res, id |-> id]
 NoMsg == Msg("", "", "", 0, "", FALSE)
@@ -76,7 +85,7 @@ Init == /\ dph = [s \in Sessions |-> "idle"] /\ did = [s \in Sessions |-> ""]
         /\ aph = [s \in Sessions |-> "idle"] /\ aid = [s \in Sessions |-> ""]
         /\ deph = [s \in Sessions |-> 0] /\ aeph = [s \in Sessions |-> 0] /\ src = [s \in Sessions |-> 0]
         /\ amsg = [s \in Sessions |-> NoMsg] /\ dmsg = [s \in Sessions |-> NoMsg]
-        /\ seen = {} /\ nops = 0 /\ hist = <<>>
+        /\ seen = {} /\ churn = 0 /\ nops = 0 /\ hist = <<>>
 
 \* connection + key exchange of session s, the dialer emits its genuine SignatureRequest
 \* (both sides generate a fresh ephemeral key: 10+s and 20+s stand for fresh random values)
@@ -85,7 +94,7 @@ Start(s) ==
   /\ dph' = [dph EXCEPT ![s] = "wait"] /\ aph' = [aph EXCEPT ![s] = "wait"]
   /\ deph' = [deph EXCEPT ![s] = 10 + s] /\ aeph' = [aeph EXCEPT ![s] = 20 + s]
   /\ seen' = seen \cup {[w |-> DialerOf(s), c |-> s]}
-  /\ UNCHANGED <<did, aid, src, amsg, dmsg>>
+  /\ UNCHANGED <<did, aid, src, amsg, dmsg, churn>>
   /\ Log(Rec("start", s, NoMsg, "ok", DialerOf(s)))
 
 \* the attacker opens connection t and sends the SecureRequest recorded in session s: the dialer
@@ -97,7 +106,7 @@ ReplayTranscript(t, s) ==
   /\ aph' = [aph EXCEPT ![t] = "wait"] /\ dph' = [dph EXCEPT ![t] = "closed"]
   /\ deph' = [deph EXCEPT ![t] = deph[s]] /\ aeph' = [aeph EXCEPT ![t] = 20 + t]
   /\ src' = [src EXCEPT ![t] = s]
-  /\ UNCHANGED <<did, aid, amsg, dmsg, seen>>
+  /\ UNCHANGED <<did, aid, amsg, dmsg, seen, churn>>
   /\ Log(Rec("replaytx", t, Msg("", "", DialerOf(s), s, "", FALSE), "ok", ""))
 
 \* Authenticator.handleSignatureRequest on the acceptor's peer object of session s
@@ -110,7 +119,7 @@ ToAcceptor(s, m) ==
         /\ amsg' = [amsg EXCEPT ![s] = IF res = "accept" THEN m ELSE @]
         \* an accepting acceptor answers with its own signature over this session's secret
         /\ seen' = IF res = "accept" THEN seen \cup {[w |-> Acceptor, c |-> s]} ELSE seen
-        /\ UNCHANGED <<dph, did, dmsg, deph, aeph, src>>
+        /\ UNCHANGED <<dph, did, dmsg, deph, aeph, src, churn>>
         /\ Log(Rec("toacc", s, m, res, IF res = "accept" THEN m.pkw ELSE ""))
 
 \* Authenticator.handleSignatureResponse on the dialer's peer object of session s
@@ -121,8 +130,16 @@ ToDialer(s, m) ==
      IN /\ dph' = [dph EXCEPT ![s] = IF res = "accept" THEN "acc" ELSE "closed"]
         /\ did' = [did EXCEPT ![s] = IF res = "accept" THEN m.pkw ELSE @]
         /\ dmsg' = [dmsg EXCEPT ![s] = IF res = "accept" THEN m ELSE @]
-        /\ UNCHANGED <<aph, aid, amsg, seen, deph, aeph, src>>
+        /\ UNCHANGED <<aph, aid, amsg, seen, deph, aeph, src, churn>>
         /\ Log(Rec("todial", s, m, res, IF res = "accept" THEN m.pkw ELSE ""))
+
+\* the environment creates many other peer ids (more than any id cache holds) while connections are
+\* established: nothing about the sessions changes, in particular no assigned identity
+OtherIds ==
+  /\ churn < MaxChurn /\ (\E s \in Sessions : aph[s] = "acc" \/ dph[s] = "acc")
+  /\ churn' = churn + 1
+  /\ UNCHANGED <<dph, did, aph, aid, deph, aeph, src, amsg, dmsg, seen>>
+  /\ Log(Rec("churn", 0, NoMsg, "ok", ""))
 
 Can == nops < MaxOps
 ErrMsg == Msg("", "", "", 0, "", TRUE)
@@ -130,6 +147,7 @@ Next == \/ \E s \in Sessions : Can /\ Start(s)
         \/ \E t \in Sessions, s \in Sessions : Can /\ ReplayTranscript(t, s)
         \/ \E s \in Sessions, m \in Msgs : Can /\ ToAcceptor(s, m)
         \/ \E s \in Sessions, m \in Msgs \cup {ErrMsg} : Can /\ ToDialer(s, m)
+        \/ Can /\ OtherIds
 Spec == Init /\ [][Next]_vars
 
 ----------------------------------------------------------------------------
@@ -142,6 +160,10 @@ Bound(m, s, id) == /\ m.pkw = id /\ m.sw = id /\ Secret(m.sc) = Secret(s) /\ ~m.
                    /\ m.pkf \in {"comp", "uncomp"} /\ m.sf \in {"full", "nov", "vflip"}
 BoundToSession == \A s \in Sessions : /\ (aph[s] = "acc" => Bound(amsg[s], s, aid[s]))
                                        /\ (dph[s] = "acc" => Bound(dmsg[s], s, did[s]))
+\* the identity of an accepted connection never changes afterwards
+IdentityFinal ==
+  [][\A s \in Sessions : /\ (aph[s] = "acc" => (aph'[s] = "acc" /\ aid'[s] = aid[s]))
+                         /\ (dph[s] = "acc" => (dph'[s] = "acc" /\ did'[s] = did[s]))]_vars
 \* consequence on the acceptor: nobody but the real dialer of the session gets an identity there --
 \* the attacker cannot obtain a's identity with a signature from another session, nor b's own
 NoImpersonationAtAcceptor == \A s \in Sessions : aph[s] = "acc" => (aid[s] = DialerOf(s) /\ aid[s] # Acceptor)
